@@ -97,6 +97,11 @@ theorem apply_octave (ps ps' : PlayState) (cmd : Cmd) (evs : List Ev) (ho : ps.o
         simp [Notes.noteCount]; omega
   | fill f => simp [apply] at h; obtain ⟨rfl, rfl⟩ := h; simp [ho]
   | fg b => simp [apply] at h; obtain ⟨rfl, rfl⟩ := h; simp [ho]
+  | vol k =>
+    simp only [apply] at h
+    split at h
+    · simp at h; obtain ⟨rfl, rfl⟩ := h; simp [ho]
+    · cases h
 
 theorem step_octave (lim : Limits) (env : Env) (c c' : Cfg) (evs : List Ev) (ho : c.ps.octave ≤ 6)
     (h : step lim env c = .cont c' evs) :
